@@ -77,3 +77,28 @@ Example C04_ex :
          ("y"%string, null); ("z"%string, Leaf (SInt 0))]
   /\ wf a = true /\ wf b = true.
 Proof. vm_compute. repeat split; reflexivity. Qed.
+
+(* ---------- the ORDER in which layers are folded is part of the contract: merge is not associative once three operands
+   disagree about the kind of one member (a mapping, a scalar, a mapping: folded from the left the scalar wipes the first
+   mapping; grouped to the right the two mappings meet).  Merged() of an overlay is the LEFT fold (C06); a regrouping
+   "because merge is associative" is refuted here, for both list strategies. *)
+Theorem C04_merge_not_associative : forall app,
+  exists a b c, wf a = true /\ wf b = true /\ wf c = true /\
+    merge app (merge app a b) c <> merge app a (merge app b c).
+Proof.
+  intros app.
+  exists (Con [("k"%string, Con [("m1"%string, Leaf (SInt 1))])]),
+         (Con [("k"%string, Leaf (SStr "scalar"))]),
+         (Con [("k"%string, Con [("m3"%string, Leaf (SInt 3))])]).
+  destruct app; vm_compute; repeat split; discriminate.
+Qed.
+Print Assumptions C04_merge_not_associative.
+(* ... while the left fold over five layers is what merge_all computes, one layer at a time *)
+Theorem C04_merge_all_is_left_fold : forall app l1 l2 l3 l4 l5,
+  merge_all app [l1; l2; l3; l4; l5] =
+  merge app (merge app (merge app (merge app (merge app (Con []) l1) l2) l3) l4) l5.
+Proof. reflexivity. Qed.
+Print Assumptions C04_merge_all_is_left_fold.
+Theorem C04_merge_all_snoc : forall app ls l, merge_all app (ls ++ [l]) = merge app (merge_all app ls) l.
+Proof. intros app ls l. unfold merge_all. now rewrite fold_left_app. Qed.
+Print Assumptions C04_merge_all_snoc.
